@@ -5,7 +5,7 @@ b="$1"
 git add -A; git commit -qm "wip before merging $b" 2>/dev/null
 git merge --no-edit "$b" 2>&1 | grep -i conflict
 git rm -q --cached coq/_CoqProject 2>/dev/null; rm -f coq/_CoqProject
-for f in $(git status --short | grep "^UU evidence" | awk '{print $2}'); do git checkout --theirs "$f"; done
+for f in $(git status --short | grep "^UU evidence" | awk '{print $2}'); do git checkout --theirs "$f"; git add "$f"; done
 left=$(git status --short | grep "^UU\|^AA\|^DU\|^UD")
 if [ -n "$left" ]; then echo "UNRESOLVED: $left"; exit 1; fi
 git add -A; git commit -qm "Merge $b" 2>/dev/null
